@@ -480,3 +480,44 @@ macro_rules! w_allowed_narrowed {
 w_allowed_narrowed!(w_allowed_narrowed_5, 5);
 w_allowed_narrowed!(w_allowed_narrowed_9, 9);
 w_allowed_narrowed!(w_allowed_narrowed_10, 10);
+
+/// C12 with a FOUR-member allow-list (the default list also has four members, so a list of
+/// that size which is not {5,7,9,10} is the interesting neighbour): a header-only packet of
+/// version v is reported iff v is one of the four symbolic numbers, and nothing else is.
+macro_rules! w_allowed_four {
+    ($name:ident, $v:expr) => {
+        #[kani::proof]
+        #[kani::stub(core::fmt::write, no_fmt)]
+        #[kani::stub(netflow_parser::static_versions::v5::V5Parser::parse, v5_model)]
+        #[kani::stub(netflow_parser::static_versions::v7::V7Parser::parse, v7_model)]
+        #[kani::stub(netflow_parser::variable_versions::v9::V9Parser::parse, v9_model)]
+        #[kani::stub(netflow_parser::variable_versions::ipfix::IPFixParser::parse, ipfix_model)]
+        fn $name() {
+            const V: u16 = $v;
+            const N: usize = match V {
+                5 | 7 => 24,
+                9 => 20,
+                _ => 16,
+            };
+            let mut buf: [u8; N] = kani::any();
+            put16(&mut buf, 0, V);
+            put16(&mut buf, 2, if V == 10 { 16 } else { 0 });
+            let a: [u16; 4] = kani::any();
+            let mut p = NetflowParser::default();
+            p.allowed_versions = a.into();
+            let r = p.parse_bytes(&buf);
+            let allowed = a[0] == V || a[1] == V || a[2] == V || a[3] == V;
+            assert!(r.len() == if allowed { 1 } else { 0 });
+            if allowed {
+                assert!(version_of(&r[0]) == V);
+            }
+            kani::cover!(!allowed && a[0] != a[1] && a[0] != a[2] && a[0] != a[3] && a[1] != a[2] && a[1] != a[3] && a[2] != a[3]);
+            kani::cover!(allowed);
+            core::mem::forget(r);
+            core::mem::forget(p);
+        }
+    };
+}
+w_allowed_four!(w_allowed_four_5, 5);
+w_allowed_four!(w_allowed_four_9, 9);
+w_allowed_four!(w_allowed_four_10, 10);
